@@ -6,6 +6,8 @@
    Lang/Scope.v (C++ block scoping over the IR of the statement translator Lang/Transl.v).
    Lang/Headers.v (library includes vs. instantiated library classes), Lang/FnSelect.v (which
    specialisations of the user functions are emitted, and their C++ parameter lists).
+   Lang/Reserved.v (_check_identifier: the names a script may not declare; the table is regenerated from the parser),
+   Lang/ExcDecl.v (the exception classes named by except clauses and their file-scope declarations).
    Lang/EmitScope.v (C++ block scoping of function bodies: one declaration per name and scope; the block structure of the
    text _emit_block produces for every IR node kind).
    The C++ type checker is not modelled: it is g++ itself, run by harness/props/c06.py. *)
@@ -14,6 +16,7 @@ From RV Require Import Base.Wire Base.Text Lang.Escape Lang.Sections Proofs.Esca
 From RV Require Import Lang.StmtAst Lang.Transl Lang.Scope Proofs.ScopeP.
 From RV Require Lang.Headers Proofs.HeadersP Lang.FnSelect Proofs.FnSelectP Lang.CAst.
 From RV Require Lang.EmitScope Proofs.EmitScopeP Lang.Globals Proofs.GlobalsP.
+From RV Require Gen.Reserved Lang.Reserved Proofs.ReservedP Lang.ExcDecl Proofs.ExcDeclP.
 Import ListNotations.
 Open Scope Z_scope.
 
@@ -507,3 +510,118 @@ Example C06_globals_rebound_servo :
   Globals.globals Globals.rebound_servo = [(1, 0); (2, 180); (1, 10)] /\ Globals.consistent Globals.rebound_servo = false.
 Proof. exact GlobalsP.rebound_servo_lines. Qed.
 Print Assumptions C06_globals_rebound_servo.
+
+(* ---------------------------------------------------------------- identifiers reserved in C++ (repaired: F-C06-cpp-keyword-identifier) *)
+
+Module RS := Lang.Reserved.
+
+(* every keyword and alternative token of ISO C++17 (84 of them), setup / loop / main, and every identifier of the Arduino
+   core that the emitter itself writes into sketches is in the table parser._check_identifier consults - the table is read from
+   the CURRENT parser on every run (Gen/Reserved.v), the three lists are fixed in Lang/Reserved.v.
+   (Before the repair such a name was emitted verbatim: `int double = 3;`.) *)
+Theorem C06_keywords_reserved : forall n : text, In n RS.cpp_keywords -> RS.reserved n = true.
+Proof. exact ReservedP.keywords_reserved. Qed.
+Print Assumptions C06_keywords_reserved.
+
+Theorem C06_entry_points_reserved : forall n : text, In n RS.sketch_entry_points -> RS.reserved n = true.
+Proof. exact ReservedP.entry_points_reserved. Qed.
+Print Assumptions C06_entry_points_reserved.
+
+Theorem C06_core_names_reserved : forall n : text, In n RS.core_names_emitted -> RS.reserved n = true.
+Proof. exact ReservedP.core_names_reserved. Qed.
+Print Assumptions C06_core_names_reserved.
+
+(* A followed by digits, of any length: the analog pin names *)
+Theorem C06_analog_pins_reserved : forall (d : Z) (ds : text),
+  forallb RS.is_digit (d :: ds) = true -> RS.reserved (65 :: d :: ds) = true.
+Proof. exact ReservedP.analog_pins_reserved. Qed.
+Print Assumptions C06_analog_pins_reserved.
+
+(* a script is accepted iff every declaration site accepts its name ... *)
+Theorem C06_check_all_meaning : forall ns : list text,
+  RS.check_all ns = true <-> (forall n, In n ns -> RS.check_identifier n = Some n).
+Proof. exact ReservedP.check_all_spec. Qed.
+Print Assumptions C06_check_all_meaning.
+
+(* ... and then it declares no keyword, no entry point, no core name the emitter writes, no analog pin: what the finding's
+   witness (double = 3) showed to be false before the repair *)
+Theorem C06_accepted_declares_nothing_reserved : forall ns : list text, RS.check_all ns = true ->
+  forall n, In n ns ->
+    ~ In n RS.cpp_keywords /\ ~ In n RS.sketch_entry_points /\ ~ In n RS.core_names_emitted /\ RS.is_analog_pin n = false.
+Proof. exact ReservedP.accepted_declares_nothing_reserved. Qed.
+Print Assumptions C06_accepted_declares_nothing_reserved.
+
+(* one reserved name among the declarations, wherever: rejected *)
+Theorem C06_one_reserved_rejects : forall (pre : list text) (n : text) (post : list text),
+  RS.reserved n = true -> RS.check_all (pre ++ n :: post) = false.
+Proof. exact ReservedP.one_reserved_rejects. Qed.
+Print Assumptions C06_one_reserved_rejects.
+
+(* whole names only: names that merely contain a reserved one stay ordinary identifiers (double2, Loop, class_, int_, A, A0x,
+   a0, delay_ms, x, count) *)
+Example C06_reserved_near_misses :
+  map RS.reserved [ [100;111;117;98;108;101;50]; [76;111;111;112]; [99;108;97;115;115;95]; [105;110;116;95]; [65]; [65;48;120]; [97;48];
+                    [100;101;108;97;121;95;109;115]; [120]; [99;111;117;110;116] ] = repeat false 10.
+Proof. exact ReservedP.near_misses_free. Qed.
+Print Assumptions C06_reserved_near_misses.
+
+Example C06_reserved_nonvacuous :
+  RS.reserved [100;111;117;98;108;101] = true /\ RS.reserved [99;108;97;115;115] = true /\ RS.reserved [110;101;119] = true /\
+  RS.reserved [108;111;111;112] = true /\ RS.reserved [65;48] = true /\ RS.reserved [65;49;53] = true /\
+  RS.check_all [[120]; [99;111;117;110;116]; [100;111;117;98;108;101;50]] = true /\
+  RS.check_all [[120]; [100;111;117;98;108;101]; [99;111;117;110;116]] = false /\
+  length RS.cpp_keywords = 84%nat /\ Nat.leb (length RS.must_be_reserved) (length Gen.Reserved.reserved_names) = true.
+Proof. exact ReservedP.witnesses_reserved. Qed.
+Print Assumptions C06_reserved_nonvacuous.
+
+(* ---------------------------------------------------------------- exception classes (repaired: F-C06-named-except) *)
+
+Module XD := Lang.ExcDecl.
+
+(* the classes emit() declares at file scope are exactly the classes that some except clause names - in setup, in loop, in any
+   function body, at any depth (try bodies, handler bodies, branches, loop bodies) ... *)
+Theorem C06_exception_classes_complete : forall (setup loop : list XD.enode) (fns : list (list XD.enode)) (c : text),
+  In c (XD.program_classes setup loop fns) <->
+  In c (XD.named setup) \/ In c (XD.named loop) \/ exists f, In f fns /\ In c (XD.named f).
+Proof. exact ExcDeclP.program_classes_complete. Qed.
+Print Assumptions C06_exception_classes_complete.
+
+(* ... each declared once (a second  struct C {};  would be a redefinition) *)
+Theorem C06_exception_classes_once : forall (setup loop : list XD.enode) (fns : list (list XD.enode)),
+  NoDup (XD.program_classes setup loop fns).
+Proof. exact ExcDeclP.program_classes_nodup. Qed.
+Print Assumptions C06_exception_classes_once.
+
+(* in particular: the class of any handler of any try statement of a body is declared
+   (was: `catch (ValueError &)` with no ValueError anywhere in the sketch) *)
+Theorem C06_handler_class_declared : forall (l b : list XD.enode) hs (c : Z) (r : text) (body : list XD.enode),
+  In (XD.XTry b hs) l -> In (Some (c :: r), body) hs -> In (c :: r) (XD.classes l).
+Proof. exact ExcDeclP.handler_class_declared. Qed.
+Print Assumptions C06_handler_class_declared.
+
+(* the de-duplication at every level of the recursion loses nothing and invents nothing *)
+Theorem C06_exception_classes_are_the_named : forall (l : list XD.enode) (c : text), In c (XD.classes l) <-> In c (XD.named l).
+Proof. exact ExcDeclP.classes_complete. Qed.
+Print Assumptions C06_exception_classes_are_the_named.
+
+(* the qualified name in the catch header (exception.replace(".", "::")) is the path the declaration introduces
+   (name.split(".") -> namespaces around a struct), for every class name without a colon *)
+Theorem C06_catch_names_the_declared_class : forall name : text,
+  (forall ch, In ch name -> ch <> 58) -> XD.catch_path name = XD.decl_path name.
+Proof. exact ExcDeclP.catch_path_is_decl_path. Qed.
+Print Assumptions C06_catch_names_the_declared_class.
+
+(* ValueError named twice and a.B once and KE once, handlers without a class: three declarations;
+   struct ValueError {};   namespace a { namespace b { struct Err {}; } } *)
+Example C06_exception_classes_nonvacuous :
+  XD.classes XD.demo_tree = [[86;69]; [97;46;66]; [75;69]] /\
+  XD.named XD.demo_tree = [[86;69]; [97;46;66]; [86;69]; [75;69]] /\
+  XD.class_decl [86;97;108;117;101;69;114;114;111;114] =
+    [115;116;114;117;99;116;32;86;97;108;117;101;69;114;114;111;114;32;123;125;59] /\
+  XD.class_decl [97;46;98;46;69;114;114] =
+    XD.k_namespace ++ [32;97;32;123;32] ++ XD.k_namespace ++ [32;98;32;123;32] ++ XD.k_struct ++ [32;69;114;114;32;123;125;59;32;125;32;125] /\
+  XD.decl_path [97;46;98;46;69;114;114] = [[97]; [98]; [69;114;114]] /\
+  XD.catch_path [97;46;98;46;69;114;114] = [[97]; [98]; [69;114;114]] /\
+  XD.dots_to_colons [97;46;98;46;69;114;114] = [97;58;58;98;58;58;69;114;114].
+Proof. exact ExcDeclP.demo. Qed.
+Print Assumptions C06_exception_classes_nonvacuous.
